@@ -73,7 +73,9 @@ def run(ctx):
                         vroots.add((l.kind, l.data if l.kind == "param" else None, l.path))
                 troots = {(l.kind, l.data if l.kind == "param" else None, l.path) for l in nb.trace(ops["typ"])}
                 got = {(l.kind, l.data if l.kind == "param" else None, l.path) for l in parts["value"]}
-                same["value"] = bool(got & vroots) and got <= (vroots | troots)
+                # (a part of the key type - the name inside KeyType::Unknown quoted in an error text - is the key type)
+                tparams = {(k_, d_) for (k_, d_, p_) in troots if k_ == "param"}
+                same["value"] = bool(got & vroots) and all(g_ in vroots or g_ in troots or (g_[0] == "param" and (g_[0], g_[1]) in tparams) for g_ in got)
                 no_id = bool(parts["keyid"]) and all(l.kind == "agg" and l.data[2].get("variant") == "None" for l in parts["keyid"])
                 no_priv = all(l.kind in ("const", "agg") for l in parts["private"]) and not any(
                     l.kind == "const" and l.data.get("int") == 1 for l in parts["private"])
